@@ -44,10 +44,14 @@ def universe(r):
     req = doc.gen_lexicon(r, v, 'req', '2', p, requires=[('missing', '9'), ('ex', '1'), ('ba', '2')], idprefix='q-')   # a provider may be an extension
     un = doc.gen_lexicon(r, v, 'un', '1', p, idprefix='b-')   # same ids as the base on purpose
     old = doc.gen_lexicon(r, '1.0', 'old', '1', doc.Profile(max_entries=3, max_synsets=3, ili='shared'), idprefix='o-')
-    lex = {'b1': b1, 'b2': b2, 'e1': e1, 'ee': ee, 'e2': e2, 'dep': dep, 'req': req, 'un': un, 'old': old}
+    # look-alikes of required providers: equal to 'ba:1' / 'un:1' / anything only for a pattern match (LIKE, GLOB, case folding)
+    lk = doc.gen_lexicon(r, v, 'b_', '1', doc.Profile(max_entries=2, max_synsets=2, ili='shared', idstyle='short'), idprefix='k-')
+    lu = doc.gen_lexicon(r, v, 'UN', '1', doc.Profile(max_entries=2, max_synsets=2, ili='shared', idstyle='short'), idprefix='u-')
+    lp = doc.gen_lexicon(r, v, '%', '*', doc.Profile(max_entries=2, max_synsets=2, ili='shared', idstyle='short'), idprefix='p-')
+    lex = {'b1': b1, 'b2': b2, 'e1': e1, 'ee': ee, 'e2': e2, 'dep': dep, 'req': req, 'un': un, 'old': old, 'lk': lk, 'lu': lu, 'lp': lp}
     files = {
         'b1': ['b1'], 'b2': ['b2'], 'e1': ['e1'], 'ee': ['ee'], 'e2': ['e2'], 'dep': ['dep'], 'req': ['req'], 'un': ['un'],
-        'old': ['old'], 'b1+un': ['b1', 'un'], 'un+b1': ['un', 'b1'], 'b1+e1': ['b1', 'e1'], 'e1+ee+e2': ['e1', 'ee', 'e2'],
+        'old': ['old'], 'lk': ['lk'], 'lu': ['lu'], 'lp': ['lp'], 'b1+un': ['b1', 'un'], 'un+b1': ['un', 'b1'], 'b1+e1': ['b1', 'e1'], 'e1+ee+e2': ['e1', 'ee', 'e2'],
     }
     return lex, files
 
